@@ -47,3 +47,79 @@ Theorem C11_dopri5_max_step :
     end.
 Proof. intros; eapply step_max_step; eauto. Qed.
 Print Assumptions C11_dopri5_max_step.
+
+(* ---------------- DOP853 (proofs/Dop853Protocol.v, Dop853Real.v) ---------------- *)
+Require IVP.model.Dop853 IVP.proofs.Dop853Protocol IVP.proofs.Dop853Real.
+
+Theorem C11_dop853_budget_count :
+  forall (F : Type) (O : Ops F) (H : Type) (P : Dop853.params) f xend posneg hmax
+         (cb : H -> F -> F -> list F -> option (list F * F * F) -> H * flag F * list F) kern fuel s r,
+    (nstep (Dop853.s_stats s) <= Dop853.p_max_steps P + 1)%N ->
+    Dop853.loop O P f xend posneg hmax cb kern fuel s = Some r ->
+    (nstep (Dop853.r_stats r) <= Dop853.p_max_steps P + 1)%N /\
+    (Dop853.r_status r = NeedLargerNMax -> (Dop853.p_max_steps P < nstep (Dop853.r_stats r))%N).
+Proof. exact @Dop853Protocol.loop_budget. Qed.
+Print Assumptions C11_dop853_budget_count.
+
+Theorem C11_dop853_budget_prefix :
+  forall (F : Type) (O : Ops F) (H : Type) (P : Dop853.params) f xend posneg hmax
+         (cb : H -> F -> F -> list F -> option (list F * F * F) -> H * flag F * list F) kern (n1 n2 : N) s,
+    (nstep (Dop853.s_stats s) <= n1)%N -> (nstep (Dop853.s_stats s) <= n2)%N ->
+    Dop853.step O (Dop853Protocol.with_budget P n1) f xend posneg hmax cb kern s =
+    Dop853.step O (Dop853Protocol.with_budget P n2) f xend posneg hmax cb kern s.
+Proof. exact @Dop853Protocol.step_budget_prefix. Qed.
+Print Assumptions C11_dop853_budget_prefix.
+
+Theorem C11_dop853_max_step :
+  forall (H : Type) (P : Dop853.params) f xend posneg hmax
+         (cb : H -> R -> R -> list R -> option (list R * R * R) -> H * flag R * list R) kern,
+    posneg = 1 \/ posneg = -1 -> 0 < Dop853.p_scale_min P -> 0 < Dop853.p_safety P ->
+    Dop853.p_scale_min P <= 1 -> Dop853.p_safety P <= 1 -> 0 <= Dop853.expo1 Rops P ->
+    forall s, Dop853Real.Inv xend posneg s -> Dop853Real.InvH xend hmax s ->
+    let '(h, last) := Dop853.landing Rops xend posneg (Dop853.s_x s) (Dop853.s_h s) (Dop853.s_last s) in
+    (if last then Rabs h < 101 / 100 * Rabs hmax else Rabs h <= Rabs hmax) /\
+    match Dop853.step Rops P f xend posneg hmax cb kern s with
+    | inl s' => Dop853Real.InvH xend hmax s'
+    | inr _ => True
+    end.
+Proof. intros; eapply Dop853Real.step_max_step; eauto. Qed.
+Print Assumptions C11_dop853_max_step.
+
+(* ---------------- RK23 (proofs/Rk23Real.v): no landing stretch at all ---------------- *)
+Require IVP.model.Rk23 IVP.proofs.Rk23Real.
+
+Theorem C11_rk23_max_step :
+  forall (H : Type) (P : Rk23.params) f xend posneg hmax
+         (cb : H -> R -> R -> list R -> option (list R * R * R) -> H * flag R * list R) kern,
+    posneg = 1 \/ posneg = -1 -> 0 < Rk23.p_scale_min P -> 0 < hmax -> Rk23.p_scale_min P <= 1 ->
+    forall s, Rk23Real.Inv xend posneg s -> Rabs (Rk23.s_h s) <= hmax ->
+    Rabs (Rk23Real.htry xend posneg (Rk23.s_x s) (Rk23.s_h s)) <= hmax /\
+    match Rk23.step Rops P f xend posneg hmax cb kern s with
+    | inl s' => Rabs (Rk23.s_h s') <= hmax /\
+                (Rk23.s_x s' = Rk23.s_x s ->
+                 Rabs (Rk23.s_h s') <= Rabs (Rk23Real.htry xend posneg (Rk23.s_x s) (Rk23.s_h s)))
+    | inr _ => True
+    end.
+Proof. intros; eapply Rk23Real.step_max_step; eauto. Qed.
+Print Assumptions C11_rk23_max_step.
+
+(* ---------------- RK4: every step is h, the last one the remaining distance < 1.01 |h| ---------------- *)
+Require IVP.model.Rk4 IVP.proofs.Rk4Real.
+
+Theorem C11_rk4_fixed_step :
+  forall (H : Type) (P : Rk4.params) f xend h
+         (cb : H -> R -> R -> list R -> option (list R * R * R) -> H * flag R * list R) kern,
+    h <> 0 ->
+    forall s, Rk4Real.Inv xend h s ->
+    Rabs (Rk4Real.htry xend h (Rk4.s_x s)) < 101 / 100 * Rabs h /\
+    match Rk4.step Rops P f xend h cb kern s with
+    | inl s' => Rk4.s_x s' = Rk4.s_x s + h
+    | inr r => Rk4.r_status r = NeedLargerNMax \/ Rk4.r_x r = Rk4.s_x s + Rk4Real.htry xend h (Rk4.s_x s)
+    end.
+Proof.
+  intros H P f xend h cb kern Hh s Hi.
+  destruct (Rk4Real.step_discipline P f xend h cb kern Hh s Hi) as [_ [A B]]. split; [exact A|].
+  destruct (Rk4.step Rops P f xend h cb kern s) as [s'|r]; [apply B|].
+  destruct B as [[B _]|[B _]]; [left|right]; exact B.
+Qed.
+Print Assumptions C11_rk4_fixed_step.
